@@ -67,6 +67,11 @@ CLAIMED = {
         "Decides sentence 2 of the property for the reference emulator: the result for element i cannot depend on its position, on n or on an x2/x4 prefix other than through the documented source indices of the up-sampling/offset/resampling loads; plus the table-to-emulator agreement (row name, element sizes, operand slots, declaration) for all 197 opcodes and the zeroing of accumulators. What each opcode computes from its operands (wrap-around, saturation, rounding, byte order) is not decided.",
         "Trusted: clang AST; documented index forms frozen from doc/opcode_table.xml (shift constants not checked).",
         "DESIGN.md §4 C02"),
+    "C03": (
+        "index-form discipline over the emulator and over the C generator's format literals; per-case access-width check of the x86 move helpers and load/store rules against operand widths taken from objdump's size annotation (path enumeration inside each `case N`); who-may-store and closed executor-slot set over emission call sites",
+        "Decides that the emulator and every C program Orc can generate subscript operand arrays only with canonical or documented index forms under `i < n`, never store through (const) source pointers, that each size case of the x86 move helpers and load/store rules touches exactly the entitled number of bytes (loadupdb N/2, loadupib N/2+1 and 1 for a single element), that array stores are emitted only by store rules through the destination pointer, and that generated code writes only a frozen set of executor scratch slots. Region counters, strides, row advance and rep-movs counts are not decided.",
+        "Trusted: binutils operand-size annotation; SLOT_TABLE and GEN_FORMS tables in rules/c03.py (confirmed by reading; documented forms from doc/opcode_table.xml).",
+        "DESIGN.md §4 C03"),
 }
 
 NOT_YET = "check under construction in this round; not claimed until its rules are exact on the current tree"
